@@ -4,6 +4,7 @@ package main
 // with the property, classify failures (known finding / violation), write evidence and replay files.
 
 import (
+	"go/types"
 	"bufio"
 	"encoding/json"
 	"flag"
@@ -132,6 +133,7 @@ func cmdCheck(args []string) int {
 			problems = append(problems, be)
 		}
 		obls = append(obls, w.callerObligations(*prop)...)
+		obls = append(obls, w.closeOnlyObligations(*prop)...)
 		obls = append(obls, w.lemmaObligations(*prop)...)
 		obls = append(obls, rawLemmaObligations(*prop)...)
 		for _, fn := range w.scopeFunctions() {
@@ -644,4 +646,72 @@ func hasStr(xs []string, x string) bool {
 		}
 	}
 	return false
+}
+
+// closeOnlyObligations: a `closeonly T.field` channel must never be the operand of a send statement.
+func (w *World) closeOnlyObligations(prop string) []*Obligation {
+	var out []*Obligation
+	var keys []string
+	for k := range w.spec.CloseOnly {
+		keys = append(keys, k)
+	}
+	sort.Strings(keys)
+	for _, key := range keys {
+		tags := w.spec.CloseOnly[key]
+		if !hasStr(tags, prop) {
+			continue
+		}
+		var bad []string
+		for _, f := range w.scopeFunctions() {
+			for _, b := range f.Blocks {
+				for _, in := range b.Instrs {
+					var ch ssa.Value
+					switch x := in.(type) {
+					case *ssa.Send:
+						ch = x.Chan
+					case *ssa.Select:
+						for _, s := range x.States {
+							if s.Dir == types.SendOnly && fieldKeyOf(s.Chan) == key {
+								bad = append(bad, shortFnName(f))
+							}
+						}
+					}
+					if ch != nil && fieldKeyOf(ch) == key {
+						bad = append(bad, shortFnName(f))
+					}
+				}
+			}
+		}
+		o := &Obligation{Name: "closeonly:" + key[strings.LastIndex(key, "/")+1:], Kind: "contract", Tags: tags, Fn: key, Static: "ok"}
+		if len(bad) > 0 {
+			o.Static = "sent on a close-only channel in: " + strings.Join(bad, ", ")
+		}
+		out = append(out, o)
+	}
+	return out
+}
+
+// fieldKeyOf: "pkg.T.field" when v is a direct load of a struct field through a pointer, else "".
+func fieldKeyOf(v ssa.Value) string {
+	u, ok := v.(*ssa.UnOp)
+	if !ok {
+		return ""
+	}
+	fa, ok := u.X.(*ssa.FieldAddr)
+	if !ok {
+		return ""
+	}
+	pt, ok := fa.X.Type().Underlying().(*types.Pointer)
+	if !ok {
+		return ""
+	}
+	n, ok := pt.Elem().(*types.Named)
+	if !ok || n.Obj().Pkg() == nil {
+		return ""
+	}
+	su, ok := n.Underlying().(*types.Struct)
+	if !ok {
+		return ""
+	}
+	return n.Obj().Pkg().Path() + "." + n.Obj().Name() + "." + su.Field(fa.Field).Name()
 }
